@@ -312,6 +312,29 @@ def config_tables():
     return layers, upd, comp_layer
 
 
+# --------------------------------------------------------------------------- index map constants
+
+def index_map_tables():
+    """`TEN_DIGIT_MODULUS`, the `primes` list of `_hash` and the multiplier of `_spread` in randomness/index_map.py"""
+    im = _parse("framework/randomness/index_map.py")
+    cls = _cls(im, "IndexMap")
+    modulus = primes = mult = None
+    for n in cls.body:
+        if isinstance(n, ast.Assign) and any(_attr_name(t) == "TEN_DIGIT_MODULUS" for t in n.targets):
+            modulus = _lit(n.value)
+    for n in ast.walk(_fn(cls, "_hash")):
+        if isinstance(n, ast.Assign) and any(_attr_name(t) == "primes" for t in n.targets):
+            primes = list(_lit(n.value))
+    for n in ast.walk(_fn(cls, "_spread")):
+        if isinstance(n, ast.BinOp) and isinstance(n.op, ast.Mult):
+            for side in (n.left, n.right):
+                if isinstance(side, ast.Constant) and isinstance(side.value, int):
+                    mult = side.value
+    if modulus is None or primes is None or mult is None:
+        raise TranslationError("index_map.py: TEN_DIGIT_MODULUS / primes / _spread multiplier not found")
+    return modulus, primes, mult
+
+
 # --------------------------------------------------------------------------- component manager order
 
 def component_order_tables():
@@ -419,6 +442,7 @@ def render_tables() -> str:
     ru_cmp, ts_forwards, step_guarded = interactive_tables()
     res_types, null_type = resource_tables()
     setup_operands, managers_first = component_order_tables()
+    im_modulus, im_primes, im_mult = index_map_tables()
     o = []
     o.append("/-! GENERATED by vcheck/translate.py from the working tree of the repository under test.")
     o.append("    Never edited by hand; rewritten (when changed) by every run of `./check`. -/")
@@ -474,6 +498,10 @@ def render_tables() -> str:
     o.append("]")
     o.append("/-- layer written by `ComponentManager.apply_configuration_defaults` -/")
     o.append('def componentDefaultsLayer : String := "%s"\n' % comp_layer)
+    o.append("/-- constants of randomness/index_map.py: `TEN_DIGIT_MODULUS`, `primes` in `_hash`, the multiplier in `_spread` -/")
+    o.append("def indexMapTenDigitModulus : Int := %d" % im_modulus)
+    o.append("def indexMapPrimes : List Int := [%s]" % ", ".join(str(x) for x in im_primes))
+    o.append("def indexMapSpreadMul : Int := %d\n" % im_mult)
     o.append("/-- operands of `self._setup_components(builder, A + B)` in `ComponentManager.setup_components`, in order -/")
     o.append("def setupComponentsOperands : List String := %s" % _lstr(setup_operands))
     o.append("/-- `SimulationContext.__init__` calls `add_managers` before `add_components` -/")
